@@ -250,6 +250,8 @@ def partial_credit_logic(cases, score, partial_credit):
         if partial_credit:
             # Specify total score for all test cases, divide by # of cases passed | True, using `score`
             if score:
+                if isinstance(score, (int, float)):
+                    return [score / len(cases) for case in cases]
                 return [str(Score.parse(score) / len(cases)) for case in cases]
             else:
                 return [None for case in cases]
